@@ -27,19 +27,31 @@ Pair = collections.namedtuple("Pair", ["x", "y"])
 def cases(tier, seed):
     rng = util.rng_for(ID, tier, seed)
     out = []
-    n = 40 if tier == "quick" else 280
-    kinds = ["pytree", "permutation", "jit", "vmap", "pytree", "permutation"]
+    n = 48 if tier == "quick" else 288
+    kinds = ["pytree", "permutation", "jit", "vmap", "pytree", "pytree"]
+    # pytree cases walk through every (factorisation, structure) pair: the flatten/unflatten code is per factorisation and
+    # its leaf handling depends on the rank of the leaves (seed C15-s2 scrambled only rank >= 2 leaves of the block-diagonal model)
+    pairs = [(f, st) for f in configs.FACTS for st in range(N_STRUCTS)]
+    rng.shuffle(pairs)
+    npy = 0
     for k in range(n):
         kind = kinds[k % len(kinds)]
+        fact, struct = configs.FACTS[(k // len(kinds)) % 3], rng.randrange(N_STRUCTS)
+        if kind == "pytree":
+            fact, struct = pairs[npy % len(pairs)]
+            npy += 1
         out.append(
             {
-                "id": f"{kind}-{k}", "kind": kind, "fact": configs.FACTS[(k // len(kinds)) % 3], "cal": rng.choice(configs.CALS),
+                "id": f"{kind}-{k}", "kind": kind, "fact": fact, "cal": rng.choice(configs.CALS),
                 "routine": rng.choice(["fixed", "adaptive"]), "strategy": rng.choice(["filter", "smoother"]),
-                "ts": rng.choice(["ts0", "ts1"]), "struct": rng.randrange(5), "perm_seed": rng.randrange(10**6),
+                "ts": rng.choice(["ts0", "ts1"]), "struct": struct, "perm_seed": rng.randrange(10**6),
                 "tol": 10 ** rng.uniform(-5, -2), "seedm": rng.randrange(10**9), "cost": 10.0,
             }
         )
     return out
+
+
+N_STRUCTS = 8
 
 
 def _structures(idx):
@@ -53,6 +65,9 @@ def _structures(idx):
         Pair(x=z((2, 1, 1)), y=[z(()), z((1,))]),
         {"U": Pair(x=z((1, 1, 1)), y=z(()))},
         [z((3,)), (z(()),)],
+        {"M": z((2, 3))},
+        (z((2, 2)), z(())),
+        Pair(x=z((2, 1, 2)), y=z((1,))),
     ][idx]
 
 
